@@ -20,6 +20,8 @@ type vfOvEnv struct {
 	A, B     int
 	P        bool
 	Xs       []vfVec
+	Pv       *vfVec
+	Dyn      interface{}
 	AddVec   func(a, b vfVec) vfVec
 	AddMixed func(a vfVec, b int) vfVec
 	AddIface func(a, b vfStringer) vfVec
@@ -28,6 +30,8 @@ type vfOvEnv struct {
 	Id       func(a vfVec) vfVec
 	Two      func(a, b vfVec) (vfVec, error)
 	One      func(a vfVec) vfVec
+	EqPv     func(a, b *vfVec) bool
+	Three    func(a, b, c vfVec) vfVec
 	NotFunc  int
 }
 
@@ -39,6 +43,10 @@ func (e *vfOvEnv) Plus(a, b vfVec) vfVec {
 func vfMakeOvEnv() *vfOvEnv {
 	e := &vfOvEnv{V: vfVec{vfInt("V.X")}, W: vfVec{vfInt("W.X")}, A: vfInt("A"), B: vfInt("B"), P: vfBool("P")}
 	e.Xs = []vfVec{{vfInt("Xs0.X")}, {vfInt("Xs1.X")}}
+	if vfBool("Pv") {
+		e.Pv = &vfVec{vfInt("Pv.X")}
+	}
+	e.Dyn = []int{10, 20, 30}
 	e.AddVec = func(a, b vfVec) vfVec {
 		vfLog = append(vfLog, vfCall{"AddVec", a.X, b.X})
 		return vfVec{vfUFInt("AddVec", a.X, b.X)}
@@ -59,6 +67,11 @@ func vfMakeOvEnv() *vfOvEnv {
 		vfLog = append(vfLog, vfCall{"EqVec", a.X, b.X})
 		return vfUFBool("EqVec", a.X, b.X)
 	}
+	e.EqPv = func(a, b *vfVec) bool {
+		vfLog = append(vfLog, vfCall{"EqPv", 0, 0})
+		return a == b
+	}
+	e.Three = func(a, b, c vfVec) vfVec { return a }
 	e.Id = func(a vfVec) vfVec { return a }
 	e.Two = func(a, b vfVec) (vfVec, error) { return a, nil }
 	e.One = func(a vfVec) vfVec { return a }
@@ -80,6 +93,12 @@ func vfOvOptions(table int) []Option {
 		ops = append(ops, Operator("+", "AddVec"), Operator("-", "SubVec"), Operator("==", "EqVec"))
 	case 5:
 		ops = append(ops, Operator("+", "AddMixed", "AddVec"))
+	case 6:
+		ops = append(ops, Operator("+", "Plus", "AddVec"))
+	case 7:
+		ops = append(ops, Operator("+", "AddMixed", "Plus"))
+	case 8:
+		ops = append(ops, Operator("==", "EqPv"))
 	}
 	return ops
 }
@@ -144,18 +163,21 @@ func HarnessC17Overload() {
 
 // HarnessC17Config: a mapping that names a missing or ill-shaped function is rejected at compile time.
 func HarnessC17Config() {
-	names := []string{"Missing", "NotFunc", "One", "Two", "Twice3", "V"}
+	names := []string{"Missing", "NotFunc", "One", "Two", "Twice3", "V", "Three"}
 	bad := names[vfChoice("bad", len(names))]
+	good := []string{"AddVec", "Plus"}[vfChoice("good", 2)]
 	pos := vfChoice("pos", 2)
-	fns := []string{"AddVec"}
+	fns := []string{good}
 	if pos == 0 {
-		fns = []string{bad, "AddVec"}
+		fns = []string{bad, good}
 	} else {
-		fns = []string{"AddVec", bad}
+		fns = []string{good, bad}
 	}
 	_, err := Compile("V + W", Env(&vfOvEnv{}), Operator("+", fns...))
 	vfReach("c17.config.checked")
 	vfAssert(err != nil, "c17.ill-shaped-mapping-is-rejected")
 	_, err = Compile("A + B", Env(&vfOvEnv{}), Operator("+", "AddVec"))
+	vfAssert(err == nil, "c17.well-shaped-mapping-is-accepted")
+	_, err = Compile("V + W", Env(&vfOvEnv{}), Operator("+", "Plus", "AddVec", "AddMixed"))
 	vfAssert(err == nil, "c17.well-shaped-mapping-is-accepted")
 }
